@@ -1558,7 +1558,28 @@ fn tree_leaves(tier: Tier) -> Vec<T> {
     v
 }
 
+/// Integers at every decimal-length boundary and at both ends of the i64 range (encoders with a
+/// hand-written digit loop or a small-integer fast path go wrong exactly here).
+fn boundary_integers() -> Vec<i64> {
+    let mut v = vec![i64::MIN, i64::MIN + 1, i64::MAX, i64::MAX - 1, 0, 1, -1, 9, 10, -9, -10, 255, 256, -128, 65535, 65536];
+    let mut p: i64 = 10;
+    while let Some(next) = p.checked_mul(10) {
+        v.extend([p - 1, p, p + 1, -(p - 1), -p, -(p + 1)]);
+        p = next;
+    }
+    v.extend([p - 1, p, p + 1, -(p - 1), -p, -(p + 1)]);
+    v.sort_unstable();
+    v.dedup();
+    v
+}
+
 fn extra_leaves() -> Vec<T> {
+    let mut v = extra_leaves_base();
+    v.extend(boundary_integers().into_iter().map(T::I));
+    v
+}
+
+fn extra_leaves_base() -> Vec<T> {
     vec![
         T::S(b"PONG".to_vec()),
         T::S(b"QUEUED".to_vec()),
